@@ -48,6 +48,11 @@ def items(tier):
         ("sum2", ("cse", ("sum2", v("x1"), v("x2"))), ("cse", ("sum2", v("x1"), v("x2")))),
         ("prod2", ("cse", ("cse", ("quot", v("x1"), v("x2")))), ("cse", ("quot", v("x1"), v("x2")))),
         ("sum2", ("pow", v("x1"), ("c", 2)), ("floordiv", ("prod3", v("x1"), v("x2"), v("x3")), ("rem", v("x2"), ("c", 3)))),
+        # different wrappers (prefix / scope) around equal children, and wrappers nested in a wrapper's body
+        ("sum2", ("cse", ("sum2", v("x1"), v("x2"))), ("cse_pfx", ("sum2", v("x1"), v("x2")))),
+        ("tuple3", ("cse_pfx", ("prod2", v("x1"), v("x2"))), ("cse", ("prod2", v("x1"), v("x2"))), ("cse_glob", ("prod2", v("x1"), v("x2")))),
+        ("sum2", ("cse", ("quot", ("pow", ("cse_pfx", ("sum2", v("x1"), v("x2"))), ("c", 2)), ("sum2", ("cse_pfx", ("sum2", v("x1"), v("x2"))), ("c", 1)))), ("c", 1)),
+        ("prod2", ("cse", ("sum2", ("cse_pfx", ("prod2", v("x1"), v("x2"))), v("x3"))), ("cse_pfx", ("prod2", v("x1"), v("x2")))),
     ]
     for d in descs:
         k = skel.show(d)
